@@ -53,9 +53,15 @@ CHECKS = {
  "C17": ("exploration", "exhaustive enumeration (u8/u16, tags, short strings) + proptest generation (wide integers, digit strings, text) against reference encoders",
          "Round trips and exact reference bytes for LE/BE/BCD integers, tags, hex, CP437 and receipt numbers: small domains exhaustively, wide ones at all digit/bit boundaries plus seeded random values; BCD digit strings of every length 0..11 bytes must give the exact value or an error.",
          "Trusted: own BCD / CP437 (Unicode mapping) / tag reference functions. Non-decimal BCD nibbles are only required not to panic (the repository's captured PANs contain masked digits).", "7/C17"),
+ "C18": ("exploration", "proptest generation of status-information replies (reference encoder) + all 256 abort codes; positive and never-clauses, metamorphic relations (intermediates, unrelated fields, repeated presentation)",
+         "read_card runs against generated replies: UID absent / 0..20 bytes (leading zeros, 000000 after the cut, captured UIDs), application entries directly and in the 62 container with and without application ids, unrelated TLV fields, 0..5 intermediate statuses, every abort code. Bank iff the first listed entry carries an application id; MembershipCard(canon(uid)) when nothing is listed; never Membership when an application is listed, never Bank when none is; the id is always the canonical form; the answer does not depend on intermediates, unrelated fields or repetition; 0x6c => NoCardPresented, other aborts => another error.",
+         "Trusted: canon() transcribed from the property; reference encoder. Shapes where the first entry lacks an application id are judged by never-clauses only.", "7/C18"),
  "C19": ("exploration", "model-based testing over the C07 histories x ledgers with dangling pre-authorisations x end-of-day outcomes (all 256 abort codes once): trace invariant over the decoded request log",
          "For every accepted commit/cancel of the generated histories the decoded request log is compared with the model: own exchange completed and no token open => exactly pending query -> reversal of the reported receipt (iff one is reported) -> end-of-day(password), Ok on completion or 'receiver not ready' (a0), the abort code otherwise; tokens still open => no pending query and no end-of-day. Dangling pre-authorisations are injected and arise naturally from no-receipt reservations and aborted reversals.",
          "Trusted: model of the clean-up rule (props/c07.rs walk()), simulated terminal's FFFF-query reply (modelled on the captured partial_reversal.blob).", "7/C19"),
+ "C20": ("exploration", "exhaustive enumeration: 256 result codes x 16 (operation, exchange) sites x abort position, real client against the simulated terminal; error-identification oracle with an independent result-code table",
+         "Every result code is injected as a well-formed abort into every exchange of every public operation in which a terminal may abort (incl. the clean-up sub-exchanges) directly after the acknowledgement and after intermediate packets. The call must fail and its error must identify the code (ZVTError::Aborted(c) in the chain, the number in the text, or for read_card the specification's message from an independent table); the three documented translations are checked positively.",
+         "Trusted: own transcription of the chapter-10 result-code table; aborts during the connection handshake are connection failures (C09) and not sites here.", "7/C20"),
 }
 NOT_YET = {}
 def main():
